@@ -412,6 +412,30 @@ impl BoundsAnalyzer {
         }
     }
 
+    /// Makes the analyzer forget what the domain cannot enforce.
+    ///
+    /// Boolean and integer domains cannot hold a fractional (or, for a Boolean,
+    /// any) tightened bound. The linearizer simplifies rows with the bounds kept
+    /// here (for example `min{ x, 0.5 }` becomes `0.5` once `x >= 0.5` is known),
+    /// so a bound that is not also enforced by the variable's domain would drop
+    /// the requirement it was inferred from. After `apply_to_domain`, the bounds
+    /// of discrete variables are therefore reset to the ones of their domain.
+    pub(crate) fn restrict_to_domain(&mut self, domain: &IndexMap<String, DomainVariable>) {
+        for (name, variable) in domain {
+            match variable.get_type() {
+                VariableType::Boolean | VariableType::IntegerRange(_, _) => {
+                    if self.variable_bounds.contains_key(name) {
+                        self.variable_bounds.insert(
+                            name.clone(),
+                            Bounds::from_variable_type(variable.get_type()),
+                        );
+                    }
+                }
+                VariableType::NonNegativeReal(_, _) | VariableType::Real(_, _) => {}
+            }
+        }
+    }
+
     fn propagate_affine_constraints(&mut self, constraints: &[Constraint], max_steps: usize) {
         let forms = constraints
             .iter()
